@@ -114,6 +114,10 @@ TYPES = [(False, 1), (True, 1), (True, 2)]
 def oracle(case, tag, line):
     """Property C06 on ONE implementation output line -> list of (klass, text)."""
     bad = []
+    if "a0:noconnect" in line or line.startswith("ERR:connect") or line.startswith("ERR:listen"):
+        return [("setup-failed", "the scenario could not be set up even when re-run alone three times (the library made no outgoing connection / the scripted peer could not connect): " + line[:80])]
+    if line == "HANG" or line == "CRASH rc=5":
+        return [("hang", "the implementation did not finish this scenario within the 10 min per-case watchdog")]
     if line.startswith("ERR:internal") or line.startswith("CRASH"):
         c0 = parse_case(case)
         if "validate_modes" in line or (line == "CRASH rc=3" and c0["dir"] == "O" and c0["hs"] == 2 and c0["st"] == 3):
@@ -125,8 +129,6 @@ def oracle(case, tag, line):
         return [("crash", "handshake bytes took the library down: " + line[:200])]
     if line.startswith("ERR:") or line == "BADCASE":
         return [("harness", "harness error: " + line[:200])]
-    if line == "HANG" or line == "CRASH rc=5":
-        return [("hang", "the implementation did not finish this scenario within the 30 s per-case watchdog")]
     c = parse_case(case)
     f = dict(x.split("=", 1) for x in line.split() if "=" in x)
     attempts = re.findall(r"a\d+[pm]?:(\S*)", line)
@@ -257,8 +259,12 @@ def probe_params(impl):
 
 def run(rep, tier, seed, replay):
     impl = ltv.build_harness("c06", ["c06.cc", "common/session.cc"], libs=["-lcrypto"])
-    probe, probe_notes = probe_params(impl)
-    coq = ltv.coq_build("C06")
+    # coq/C06/ParamsProbe.v and the extracted model are shared files: two concurrent C06 runs on different
+    # trees (tools/try_patch.sh) must not interleave probe -> Coq build -> model build
+    with ltv.Lock("c06-probe"):
+        probe, probe_notes = probe_params(impl)
+        coq = ltv.coq_build("C06")
+        model = ltv.build_model("C06")
     rep.cov.update(obligations=coq["obligations"], discharged=coq["discharged"], checker_cmd=coq["checker_cmd"],
                    theorems=coq["theorems"], axioms_per_theorem=coq["axioms"],
                    trusted_base=ltv.std_trusted_base(coq, [
@@ -267,14 +273,27 @@ def run(rep, tier, seed, replay):
                        "extension-handshake payload assumed valid bencode (parsing belongs to C20); OpenSSL's DH public-key range check as 1 < Y < p-1",
                        "constants of the model (coq/C06/ParamsProbe.v) are read from the COMPILED code by harness/c06.cc --params; source regexes only as optional cross-check",
                        "harness/common/msepeer.h (independent MSE peer: OpenSSL BIGNUM + SHA-1, own RC4), harness/c06.cc, ocaml/c06_driver.ml token expansion, python oracle props/c06.py"]))
-    model = ltv.build_model("C06")
     if replay:
         j = json.load(open(replay))
         cases, tags, stats = [j["case"]], ["replay"], {"replay": 1}
     else:
         cases, tags, stats = G.gen_tagged(seed, tier)
     mo = ltv.run_sharded(model, cases)
-    io = ltv.run_sharded(impl, cases, timeout=900)
+    io = ltv.run_sharded(impl, cases, timeout=7200)
+    # harness-level set-up failure (the library never got as far as connecting out: att=0) is not a statement
+    # about the property: such a case is re-run serially, nothing else running, up to 3 times; only a case
+    # that still cannot be set up is reported (klass setup-failed, with the case: a tree that really cannot
+    # connect out must still be caught)
+    setup_reruns = 0
+    for i in range(min(len(io), len(cases))):
+        if "a0:noconnect" in io[i] or io[i].startswith("ERR:connect") or io[i].startswith("ERR:listen"):
+            for _ in range(3):
+                setup_reruns += 1
+                r1, e1, rc1 = ltv.run_lines(impl, [cases[i]], timeout=900)
+                if len(r1) == 1:
+                    io[i] = r1[0]
+                    if not ("a0:noconnect" in r1[0] or r1[0].startswith("ERR:connect") or r1[0].startswith("ERR:listen")):
+                        break
     nontrivial, mism, late, samples = set(), 0, 0, []
     outcomes = {}
     for i, case in enumerate(cases):
@@ -311,6 +330,7 @@ def run(rep, tier, seed, replay):
     rep.cov.update(evaluations=len(cases), distinct_nontrivial=len(nontrivial),
                    rule="non-trivial = distinct scenario in which the library's handshake got past its first read (a per-segment state was observed) or succeeded",
                    samples=samples, input_distribution=stats, outcome_distribution=outcomes, mismatches=mism,
+                   setup_reruns=setup_reruns,
                    observations={"unread_handshake_data_parsed_only_with_next_read (lib=late)": late},
                    exhaustive=(tier == "thorough"),
                    exhaustive_scope="thorough: all 15 policies x {in,out} x {plain, MSE 1,2,3} x pad lengths {0,1,255,511,512}^2 x IA on/off, whole-segment" if tier == "thorough" else "")
